@@ -505,9 +505,9 @@ fn base_report(case: &SeqCase, o: SeqOutcome, nontrivial: bool, mut classes: Vec
 }
 
 static RESERVE_KINDS: [ChanKind; 5] = [ChanKind::UniMoveAtomic, ChanKind::UniZcAtomic, ChanKind::UniZcFullSync, ChanKind::MultiOgreAtomic, ChanKind::MultiOgreFullSync];
-static CFGS: [(u8, u8); 6] = [(4, 1), (4, 2), (4, 4), (8, 2), (8, 4), (2, 2)];
+static CFGS: [(u8, u8); 7] = [(4, 1), (4, 2), (4, 4), (8, 2), (8, 4), (2, 2), (16, 16)];
 static SMALL_CFGS: [(u8, u8); 4] = [(2, 1), (2, 2), (4, 1), (4, 2)];
-static ALL_CFGS: [(u8, u8); 7] = [(2, 1), (2, 2), (4, 1), (4, 2), (4, 4), (8, 2), (8, 4)];
+static ALL_CFGS: [(u8, u8); 9] = [(2, 1), (2, 2), (4, 1), (4, 2), (4, 4), (8, 2), (8, 4), (16, 16), (64, 8)];
 static NON_LOG: [ChanKind; 10] = [ChanKind::UniMoveAtomic, ChanKind::UniMoveFullSync, ChanKind::UniMoveCrossbeam, ChanKind::UniZcAtomic, ChanKind::UniZcFullSync,
                                   ChanKind::MultiArcAtomic, ChanKind::MultiArcFullSync, ChanKind::MultiArcCrossbeam, ChanKind::MultiOgreAtomic, ChanKind::MultiOgreFullSync];
 static REJECTING: [ChanKind; 7] = [ChanKind::UniMoveAtomic, ChanKind::UniMoveFullSync, ChanKind::UniMoveCrossbeam, ChanKind::UniZcAtomic, ChanKind::UniZcFullSync, ChanKind::MultiOgreAtomic, ChanKind::MultiOgreFullSync];
